@@ -20,6 +20,7 @@ resolvent (M-matrix), PT4.
 This file restates the theorems the property rests on (full statements; proofs are in PGProofs/).
 Generated once by harness/mkprops.py from harness/props_table.py + PGProperties/extra/C16.lean.in; committed as source.
 -/
+import PGProofs.DriverPath
 import PGProofs.MutConfig
 
 set_option linter.all false
@@ -27,6 +28,21 @@ set_option pp.fieldNotation.generalized false
 
 namespace PG.C16
 open PG
+
+/-- the EXECUTABLE getP (certified Gauss-Jordan inverse) returns the matrices of the theorems -/
+theorem executable_getP : ∀ {S : RMat} {R : List (Array ℚ)} {θ : ℚ} {P : List RMat} {pTot : Array ℚ}, getP S R θ = some (P, pTot) → ∃ Ptot, mcCode θ (rFun (Array.size S) R) (toMatrix (Array.size S) S) * Ptot = 1 ∧ Ptot * mcCode θ (rFun (Array.size S) R) (toMatrix (Array.size S) S) = 1 ∧ List.length P = List.length R ∧ (∀ A ∈ P, WellShaped (Array.size S) A) ∧ (∀ (i : Fin (List.length R)), toMatrix (Array.size S) (List.getD P (↑i) (RMat.id (Array.size S))) = Ptot * Matrix.diagonal fun s ↦ rFun (Array.size S) R i s / mcRtot (rFun (Array.size S) R) s) ∧ toVec (Array.size S) pTot = Matrix.mulVec (1 - Ptot) 1 := @PG.getP_spec
+
+/-- and provides the resolvent hypotheses of the C16 theorems -/
+theorem executable_resolvent : ∀ {S : RMat} {R : List (Array ℚ)} {θ : ℚ} {P : List RMat} {pTot : Array ℚ}, getP S R θ = some (P, pTot) → θ ≠ 0 → (∀ (s : Fin (Array.size S)), mcRtot (rFun (Array.size S) R) s ≠ 0) → ∃ G, (θ • mcD (rFun (Array.size S) R) - toMatrix (Array.size S) S) * G = 1 ∧ G * (θ • mcD (rFun (Array.size S) R) - toMatrix (Array.size S) S) = 1 ∧ List.length P = List.length R ∧ (∀ A ∈ P, WellShaped (Array.size S) A) ∧ (∀ (i : Fin (List.length R)), toMatrix (Array.size S) (List.getD P (↑i) (RMat.id (Array.size S))) = mcP G θ (rFun (Array.size S) R) i) ∧ toVec (Array.size S) pTot = mcptot G θ (rFun (Array.size S) R) := @PG.getP_resolvent
+
+/-- the EXECUTABLE mutConfigProb the driver prints is alpha . (sum over distinct orderings) . p_total -/
+theorem executable_prob : ∀ {S : RMat} {R : List (Array ℚ)} {alpha : Array ℚ} {θ : ℚ} {config : List ℕ} {p : ℚ}, mutConfigProb S R alpha θ config = some p → θ ≠ 0 → (∀ (s : Fin (Array.size S)), mcRtot (rFun (Array.size S) R) s ≠ 0) → List.length config ≤ List.length R → ∃ G, (θ • mcD (rFun (Array.size S) R) - toMatrix (Array.size S) S) * G = 1 ∧ G * (θ • mcD (rFun (Array.size S) R) - toMatrix (Array.size S) S) = 1 ∧ p = toVec (Array.size S) alpha ⬝ᵥ Matrix.mulVec (orderingsSum (mcPnat G θ (rFun (Array.size S) R)) (configWord config)) (mcptot G θ (rFun (Array.size S) R)) := @PG.mutConfigProb_spec
+
+/-- so the printed probabilities of all configurations with m mutations sum to alpha P_total^m p_total -/
+theorem executable_mass : ∀ {S : RMat} {R : List (Array ℚ)} {θ : ℚ} {P : List RMat} {pTot : Array ℚ}, getP S R θ = some (P, pTot) → θ ≠ 0 → (∀ (s : Fin (Array.size S)), mcRtot (rFun (Array.size S) R) s ≠ 0) → 1 ≤ List.length R → ∀ (alpha : Array ℚ), ∃ G, (θ • mcD (rFun (Array.size S) R) - toMatrix (Array.size S) S) * G = 1 ∧ G * (θ • mcD (rFun (Array.size S) R) - toMatrix (Array.size S) S) = 1 ∧ ∀ (m : ℕ), List.sum (List.map (fun c ↦ Option.getD (mutConfigProb S R alpha θ c) 0) (partitionsOf m (List.length R))) = toVec (Array.size S) alpha ⬝ᵥ Matrix.mulVec (mcPtot G θ (rFun (Array.size S) R) ^ m) (mcptot G θ (rFun (Array.size S) R)) := @PG.mutConfigProb_mass
+
+/-- and the printed empty-configuration probability is the resolvent form -/
+theorem executable_empty : ∀ {S : RMat} {R : List (Array ℚ)} {alpha : Array ℚ} {θ p : ℚ}, mutConfigProb S R alpha θ [] = some p → θ ≠ 0 → (∀ (s : Fin (Array.size S)), mcRtot (rFun (Array.size S) R) s ≠ 0) → ∃ G, (θ • mcD (rFun (Array.size S) R) - toMatrix (Array.size S) S) * G = 1 ∧ G * (θ • mcD (rFun (Array.size S) R) - toMatrix (Array.size S) S) = 1 ∧ p = toVec (Array.size S) alpha ⬝ᵥ Matrix.mulVec G (Matrix.mulVec (-toMatrix (Array.size S) S) 1) := @PG.mutConfigProb_empty
 
 /-- P_total is the right inverse of the matrix the code builds -/
 theorem code_matrix_left : ∀ {K : Type u_1} [inst : Field K] {ι : Type u_2} [inst_1 : Fintype ι] [inst_2 : DecidableEq ι] {n : ℕ} {θ : K} {R : Fin n → ι → K} {S G : Matrix ι ι K}, θ ≠ 0 → (∀ (s : ι), mcRtot R s ≠ 0) → (θ • mcD R - S) * G = 1 → mcCode θ R S * mcPtot G θ R = 1 := @PG.C16_code_mul_Ptot
@@ -72,6 +88,11 @@ theorem unfold_spec : ∀ (n : ℕ) (config : List ℕ), List.length config = n 
 
 end PG.C16
 
+#print axioms PG.C16.executable_getP
+#print axioms PG.C16.executable_resolvent
+#print axioms PG.C16.executable_prob
+#print axioms PG.C16.executable_mass
+#print axioms PG.C16.executable_empty
 #print axioms PG.C16.code_matrix_left
 #print axioms PG.C16.code_matrix_right
 #print axioms PG.C16.P_total
